@@ -114,6 +114,9 @@ structure Req where
   bits : Nat
   target : Nat
   guard : Option Nat
+  /-- `some v`: written `selK(time, v)` — the closure `| |{ if (v > 0.5) { tK() } else { tK'() } }` made inside the helper
+  `selK(t, v)`, a record `[fn][v]` of two cells (`v`: f64 bits of the captured argument); `K' = K - 1` (`0` for `K = 0`) -/
+  upv : Option Nat := none
 
 structure Table where
   ticks : Nat
@@ -129,7 +132,9 @@ def parseReqs (s : String) : List Req :=
   (s.splitOn ",").filterMap fun t =>
     match t.splitOn ":" with
     | [k, c, tg, g] => some { abs := k == "a", bits := parseHex c, target := tg.toNat!, guard := g.toNat? }
-    | [k, c, tg, g, _] => some { abs := k == "a", bits := parseHex c, target := tg.toNat!, guard := g.toNat? }
+    | [k, c, tg, g, x] =>
+      some { abs := k == "a", bits := parseHex c, target := tg.toNat!, guard := g.toNat?,
+             upv := if x.startsWith "u" then some (parseHex (x.drop 1).toString) else none }
     | _ => none
 
 def parseTable (f : List String) : Option Table :=
@@ -140,6 +145,33 @@ def parseTable (f : List String) : Option Table :=
            tasks := (t.splitOn ";").map parseReqs, dsp := parseReqs d }
   | _ => none
 
+/-! closures with one upvalue: the closure id packs the helper's index `K` and the captured word -/
+
+def lamBase : Nat := 65536
+
+/-- id of the closure made by `selK(t, v)` with `v` = the f64 whose bits are `word` -/
+def lamId (k word : Nat) : Nat := (word + 1) * lamBase + k
+
+/-- which task function a closure id runs: `tK` itself, or for a `selK` closure `tK` when the captured float is `> 0.5`
+and `tK'` otherwise -/
+def resolveId (id : Nat) : Nat :=
+  if id < lamBase then id else
+  let k := id % lamBase
+  let word := id / lamBase - 1
+  if Float.ofBits (UInt64.ofNat word) > 0.5 then k else k - 1
+
+/-- record layout of the generated programs. Function words are abstract (`1 + K` for `tK`, `lamBase + 1 + K` for the
+closure of `selK`): all the real ones are small table indices, distinct, and — read as an f64 — denormal (`> 0.5`
+false); the captured words the generator uses (0.7, 0.3, 0.9, 0.1) have low 32 bits far outside the function table, so
+a captured word read as a function word traps. -/
+def tableFmt : RecFmt where
+  cells := fun id => if id < lamBase then [1 + id] else [lamBase + 1 + id % lamBase, id / lamBase - 1]
+  decode := fun rd =>
+    let w := rd 0
+    if 1 ≤ w ∧ w ≤ lamBase then some (w - 1)
+    else if lamBase < w ∧ w ≤ 2 * lamBase then some (lamId (w - lamBase - 1) (rd 1))
+    else none
+
 /-- the `schedule_at` calls of a request list evaluated at sample `now`:
 `tK@C` / `tK@(now+C)`, optionally under `if (now < g)`; time truncated like `f64 as u64`. -/
 def reqsAt (rs : List Req) (now : Nat) : List Task :=
@@ -147,12 +179,15 @@ def reqsAt (rs : List Req) (now : Nat) : List Task :=
     if (match r.guard with | some g => decide (now < g) | none => true) then
       let c := Float.ofBits (UInt64.ofNat r.bits)
       let w := if r.abs then c else Float.ofNat now + c
-      some ⟨w.toUInt64.toNat, r.target⟩
+      some ⟨w.toUInt64.toNat, match r.upv with | some v => lamId r.target v | none => r.target⟩
     else none
+
+def Table.hasUpv (tb : Table) : Bool :=
+  (tb.global ++ tb.tasks.flatten ++ tb.dsp).any (·.upv.isSome)
 
 def Table.env (tb : Table) : Env Unit where
   global := fun _ => ((), reqsAt tb.global 0)
-  task := fun id now _ => ((), reqsAt (tb.tasks.getD id []) now)
+  task := fun id now _ => ((), reqsAt (tb.tasks.getD (resolveId id) []) now)
   dsp := fun now _ => ((), reqsAt tb.dsp now)
 
 def weight : Nat := 4096
@@ -160,7 +195,7 @@ def weight : Nat := 4096
 /-- per-sample outputs `c0 + c1*4096 + …` (cumulative execution counts) of a run, then `PANIC` if it ended in a panic branch -/
 def showRun {S : Type} (r : Run S) : String :=
   let step (acc : Nat × List String) (rec : TickRec) : Nat × List String :=
-    let v := rec.execd.foldl (fun a x => a + weight ^ x.id) acc.1
+    let v := rec.execd.foldl (fun a x => a + weight ^ resolveId x.id) acc.1
     (v, toHex16 (Float.ofNat v).toBits.toNat :: acc.2)
   let outs := (r.ticks.foldl step (0, [])).2.reverse
   let outs := if r.final.isNone then outs ++ ["PANIC"] else outs
